@@ -387,8 +387,13 @@ def gen_lsadv_case(rng, target=None):
 
 
 def gen_min_case(rng):
-    spec = gen_energy(rng)
-    x0 = gen_start(rng, spec, box_ok=False)
+    if rng.random() < 0.3:
+        # non-convex profile energies (ramps, rational wells, ripples): multi-trial line searches inside the runs
+        pc = gen_profile_case(rng)
+        spec, x0 = pc["energy"], pc["x0"]
+    else:
+        spec = gen_energy(rng)
+        x0 = gen_start(rng, spec, box_ok=False)
     if rng.random() < 0.15:
         r = max(abs(v) for v in x0) + rng.choice([0.5, 1.0, 2.0])
         spec["box"] = [r, rng.choice(["nan", "huge", "inf"])]
